@@ -223,6 +223,10 @@ def signature(v, rec):
             extra = ",gid=0"
         if c["master"] != "root":
             extra += ",master=nonroot" if c["master"] == "user" else ",master=" + c["master"]
+        if str(rec.get("tag", "")).startswith("cwdconf") and rec.get("gen") == "usr2":
+            # (user / group / chdir given only by the default ./gunicorn.conf.py of the start directory; the generation
+            # started by the upgraded master)
+            extra += ",gen=usr2,settings=implicit-conf-file+chdir"
         return "C20/%s/%s,%s%s" % (v, ig, what, extra)
     if v == "PermittedDropSucceeds":
         return "C20/%s/%s,exc=%s,user=%s" % (v, ig, rec.get("exc") or "?",
@@ -298,7 +302,11 @@ def _c20(ctx):
                    {"tag": "envusr2", "user": "nobody", "group": "nogroup", "uid": 65534, "gid": 65534,
                     "initgroups": False, "worker_class": "sync", "via_env": True, "usr2": True},
                    {"tag": "cwdconf", "user": "nobody", "group": "nogroup", "uid": 65534, "gid": 65534,
-                    "initgroups": False, "worker_class": "sync", "cwdconf": True}]
+                    "initgroups": False, "worker_class": "sync", "cwdconf": True},
+                   # the same deployment through a binary upgrade (USR2): the new master is exec'ed in the directory the
+                   # file's chdir names, where there is no ./gunicorn.conf.py (recorded finding F31)
+                   {"tag": "cwdconfusr2", "user": "nobody", "group": "nogroup", "uid": 65534, "gid": 65534,
+                    "initgroups": False, "worker_class": "sync", "cwdconf": True, "usr2": True}]
         if not ctx.quick:
             servers += [
                 {"tag": "initsync", "user": "www-data", "group": "www-data", "uid": 33, "gid": 33,
